@@ -7,7 +7,7 @@
    clause "no (local, remote) pair is listed twice" is refuted by one exotic history (known finding
    C06.no_duplicate_pairs.two_prflx_superseded; witness on the model: Findings/F_C06_two_prflx.v). *)
 From Coq Require Import ZArith Bool List.
-From Ice Require Import Model.AgentTypes Model.AgentCore Gen.Consts Proofs.AgentFrame Proofs.AgentC06 Proofs.AgentC03Sel Proofs.AgentLoc Proofs.AgentRem Proofs.AgentRemOK.
+From Ice Require Import Model.AgentTypes Model.AgentCore Gen.Consts Proofs.AgentFrame Proofs.AgentC06 Proofs.AgentC03Sel Proofs.AgentLoc Proofs.AgentRem Proofs.AgentRemOK Proofs.AgentSupersede.
 Import ListNotations.
 Local Open Scope Z_scope.
 
@@ -109,3 +109,47 @@ Example C06_example_remote_filtering :
                              InStun 1 (mkAddr false 3232235778 7000) req; InStun 1 (mkAddr false 3232235780 7000) req]) in
   map (fun c => a_ip (c_addr c)) (s_remotes s) = [3232235777; 3232235780].
 Proof. vm_compute. reflexivity. Qed.
+
+(* "when a signalled candidate supersedes a peer-reflexive one with the same transport address the affected pairs
+   keep their ID, state, priority, statistics and selection": AddRemoteCandidate from EVERY state satisfying the two
+   bookkeeping invariants (unique pair ids: every history, theorem above; remote handles distinct and every pair's
+   remote a current one: C06_pairs_from_current_remotes_step).  The checklist afterwards is the old one, position by
+   position, followed by new pairs with the new candidate; each old pair keeps id, local candidate, role, state,
+   nomination data, retransmission count, priority and all eight counters; its remote candidate is unchanged or -- only
+   if it was peer-reflexive with the new candidate's transport address -- the new candidate; the selection is unchanged. *)
+Theorem C06_supersede_keeps_pairs : forall cfg c s,
+  InvU s -> Rm s ->
+  let s' := fst (step cfg s (AddRemote c)) in
+  s_selected s' = s_selected s /\
+  exists keptl new, s_checklist s' = keptl ++ new /\ Forall2 (kept c) (s_checklist s) keptl /\
+                    Forall (fun p => p_rem p = c) new.
+Proof. exact add_remote_keeps_pairs. Qed.
+Print Assumptions C06_supersede_keeps_pairs.
+
+(* non-vacuity: a peer-reflexive pair carrying a deferred nomination is superseded; id, flag and priority stay *)
+Module C06_example_supersede.
+  Definition cfg := mkConfig false 5 7 5000000000 false 25000000000 2000000000 0 0 0 0 [] false false 1.
+  Definition l := mkCand 1 CandidateTypeHost NetworkTypeUDP4 (mkAddr false 167772161 5000) TCPTypeUnspecified 2130706431 1 None.
+  Definition src := mkAddr false 3232235777 6000.
+  Definition c := mkCand 2 CandidateTypeHost NetworkTypeUDP4 src TCPTypeUnspecified 2130706431 1 None.
+  Definition req := mkMsg 0 1 77 (Some (1, 3)) (Some 2) true (Some (true, 9)) (Some 100) None None None.
+  Definition s1 := fst (step cfg (init 1 2) (AddLocal l)).
+  Definition s2 := fst (step cfg s1 (Start false 3 4)).
+  Definition s := fst (step cfg s2 (InStun 1 src req)).
+  Definition s' := fst (step cfg s (AddRemote c)).
+  Example premises_hold : InvU s /\ Rm s.
+  Proof.
+    split.
+    - unfold s, s2, s1, step. apply (C06_pair_ids_unique cfg (InStun 1 src req)). apply (C06_pair_ids_unique cfg (Start false 3 4)).
+      apply (C06_pair_ids_unique cfg (AddLocal l)). apply C06_pair_ids_unique_init.
+    - assert (H : Rc s).
+      { unfold s, s2, s1. apply step_Rc; [intros l0 E; vm_compute in E; injection E as <-; reflexivity|].
+        apply step_Rc; [exact I|]. apply step_Rc; [exact I|]. apply Rc_init. }
+      destruct H as [H|H]; [vm_compute in H; discriminate H|exact H].
+  Qed.
+  Example superseded :
+    map (fun p => (p_id p, c_typ (p_rem p), p_nom_on_succ p)) (s_checklist s) = [(1, CandidateTypePeerReflexive, true)] /\
+    map (fun p => (p_id p, c_typ (p_rem p), p_nom_on_succ p)) (s_checklist s') = [(1, CandidateTypeHost, true)] /\
+    map pair_priority (s_checklist s') = map pair_priority (s_checklist s).
+  Proof. vm_compute. repeat split. Qed.
+End C06_example_supersede.
